@@ -134,7 +134,7 @@ func (t *FnTrans) run() (err error) {
 	t.twoPhaseCheck()
 	if t.ct != nil {
 		for _, g := range t.ct.Ghost {
-			if strings.HasPrefix(g.Arg, "before call ") && !t.ghostHit[g] {
+			if (strings.HasPrefix(g.Arg, "before call ") || strings.HasPrefix(g.Arg, "after call ")) && !t.ghostHit[g] {
 				t.fail("%s:%d: ghost statement '%s' matches no call site (fail closed)", g.File, g.Line, g.Arg)
 			}
 		}
@@ -667,14 +667,19 @@ func (t *FnTrans) backEdge(from, head *ssa.BasicBlock) {
 		t.fail("back edge value not found")
 		return Val{}
 	}
+	// a loop with several back edges (continue statements): one group of step obligations per edge
+	edge := ""
+	if k := t.count(fmt.Sprintf("backedge:%d", l.ordinal)); k > 1 {
+		edge = fmt.Sprintf("@edge%d", k)
+	}
 	if ap := t.autoPhi[head]; ap != nil {
 		ai := t.autoInv[head]
 		nv := ov(ap).S
-		t.obligeNamed(fmt.Sprintf("inv.%d.auto.step", l.ordinal), "inv.step", and(app("<=", ai[0], nv), app("<", nv, ai[1])), "range counter stays within its bounds (derived from the loop's SSA form)")
+		t.obligeNamed(fmt.Sprintf("inv.%d.auto.step%s", l.ordinal, edge), "inv.step", and(app("<=", ai[0], nv), app("<", nv, ai[1])), "range counter stays within its bounds (derived from the loop's SSA form)")
 	}
 	for i, c := range invs {
 		env := t.loopEnv(head, t.cur, ov)
-		t.obligeNamed(fmt.Sprintf("inv.%d.%d.step", l.ordinal, i+1), "inv.step", env.evalBool(c.E), c.Text)
+		t.obligeNamed(fmt.Sprintf("inv.%d.%d.step%s", l.ordinal, i+1, edge), "inv.step", env.evalBool(c.E), c.Text)
 	}
 	t.guard = saveG
 }
@@ -684,7 +689,7 @@ func (t *FnTrans) backEdge(from, head *ssa.BasicBlock) {
 func (t *FnTrans) collectLocals() {
 	t.locals = map[string][]localDef{}
 	for _, b := range t.fn.Blocks {
-		for _, in := range b.Instrs {
+		for ii, in := range b.Instrs {
 			switch x := in.(type) {
 			case *ssa.DebugRef:
 				if x.IsAddr {
@@ -697,14 +702,14 @@ func (t *FnTrans) collectLocals() {
 				if _, ok := obj.(*types.Var); !ok {
 					continue
 				}
-				t.locals[obj.Name()] = append(t.locals[obj.Name()], localDef{v: x.X, blk: b, pos: x.Pos()})
+				t.locals[obj.Name()] = append(t.locals[obj.Name()], localDef{v: x.X, blk: b, pos: x.Pos(), idx: ii})
 			case *ssa.Alloc:
 				if x.Comment != "" && !strings.Contains(x.Comment, " ") {
 					t.locals["&"+x.Comment] = append(t.locals["&"+x.Comment], localDef{v: x, blk: b})
 				}
 			case *ssa.Phi:
 				if x.Comment != "" {
-					t.locals[x.Comment] = append(t.locals[x.Comment], localDef{v: x, blk: b, pos: token.NoPos})
+					t.locals[x.Comment] = append(t.locals[x.Comment], localDef{v: x, blk: b, pos: token.NoPos, idx: ii})
 				}
 			}
 		}
@@ -746,6 +751,58 @@ func (t *FnTrans) localAt(name string, b *ssa.BasicBlock, st *State) (SVal, bool
 			continue
 		}
 		if best == nil || best.blk.Dominates(d.blk) && (best.blk != d.blk || d.pos >= best.pos) {
+			best = d
+		}
+	}
+	if best == nil {
+		return SVal{}, false
+	}
+	T := t.resolve(best.v.Type())
+	return SVal{S: t.term(best.v), T: T, Sort: t.sortOf(T)}, true
+}
+
+// localHere resolves a source-level local variable at the current instruction: its latest definition
+// earlier in the same block, else the closest one in a dominating block.
+func (t *FnTrans) localHere(name string) (SVal, bool) {
+	if t.curInstr == nil {
+		return SVal{}, false
+	}
+	b := t.curInstr.Block()
+	here := -1
+	for i, in := range b.Instrs {
+		if in == t.curInstr {
+			here = i
+		}
+	}
+	if defs, ok := t.locals["&"+name]; ok && len(defs) >= 1 {
+		return t.localAt(name, b, t.cur)
+	}
+	var best *localDef
+	defs := t.locals[name]
+	for i := range defs {
+		d := &defs[i]
+		if _, ok := t.vals[d.v]; !ok {
+			if _, isC := d.v.(*ssa.Const); !isC {
+				continue
+			}
+		}
+		if d.blk == b {
+			if d.idx >= here {
+				continue
+			}
+		} else if !d.blk.Dominates(b) {
+			continue
+		}
+		if best == nil {
+			best = d
+			continue
+		}
+		switch {
+		case d.blk == b && best.blk != b:
+			best = d
+		case d.blk == b && best.blk == b && d.idx > best.idx:
+			best = d
+		case d.blk != b && best.blk != b && best.blk.Dominates(d.blk) && (best.blk != d.blk || d.idx > best.idx):
 			best = d
 		}
 	}
@@ -1395,9 +1452,102 @@ func (t *FnTrans) bitop(op token.Token, a, b string, X, Y ssa.Value, ii intInfo)
 	return r
 }
 
+// singleAssigned: the value of a local variable cell that is written exactly once (e.g. a parameter that
+// lives in a heap cell only because a closure captures it, and that neither this function nor the closure
+// ever assigns again). Loads of such a cell are the stored value: no heap reasoning needed.
+func (t *FnTrans) singleAssigned(a *ssa.Alloc, at *ssa.UnOp) (ssa.Value, bool) {
+	if c, ok := t.singleAssignCache[a]; ok {
+		if c == nil {
+			return nil, false
+		}
+		if !c.Block().Dominates(at.Block()) {
+			return nil, false
+		}
+		if c.Block() == at.Block() {
+			for _, in := range c.Block().Instrs {
+				if in == ssa.Instruction(at) {
+					return nil, false // load before the store
+				}
+				if in == ssa.Instruction(c) {
+					break
+				}
+			}
+		}
+		return c.Val, true
+	}
+	if t.singleAssignCache == nil {
+		t.singleAssignCache = map[*ssa.Alloc]*ssa.Store{}
+	}
+	t.singleAssignCache[a] = nil
+	if a.Referrers() == nil {
+		return nil, false
+	}
+	var st *ssa.Store
+	for _, r := range *a.Referrers() {
+		switch r := r.(type) {
+		case *ssa.Store:
+			if r.Addr != ssa.Value(a) || st != nil {
+				return nil, false // stored as a value somewhere, or assigned twice
+			}
+			st = r
+		case *ssa.UnOp:
+			if r.Op != token.MUL {
+				return nil, false
+			}
+		case *ssa.DebugRef:
+		case *ssa.MakeClosure:
+			fn, ok := r.Fn.(*ssa.Function)
+			if !ok {
+				return nil, false
+			}
+			for i, b := range r.Bindings {
+				if b != ssa.Value(a) {
+					continue
+				}
+				if i >= len(fn.FreeVars) || fn.FreeVars[i].Referrers() == nil {
+					return nil, false
+				}
+				for _, fr := range *fn.FreeVars[i].Referrers() {
+					switch fr := fr.(type) {
+					case *ssa.UnOp:
+						if fr.Op != token.MUL {
+							return nil, false
+						}
+					case *ssa.DebugRef:
+					default:
+						return nil, false // the closure may write the variable or pass its address on
+					}
+				}
+			}
+		default:
+			return nil, false
+		}
+	}
+	if st == nil {
+		return nil, false
+	}
+	// loops: a store inside a loop assigns the variable once per iteration
+	for _, l := range t.loops {
+		if l.body[st.Block()] {
+			return nil, false
+		}
+	}
+	t.singleAssignCache[a] = st
+	return t.singleAssigned(a, at)
+}
+
 func (t *FnTrans) unop(x *ssa.UnOp) {
 	switch x.Op {
 	case token.MUL: // load
+		if al, ok := x.X.(*ssa.Alloc); ok {
+			if sv, ok := t.singleAssigned(al, x); ok {
+				if v, has := t.vals[sv]; has || isConst(sv) {
+					_ = v
+					t.vals[x] = t.val(sv)
+					return
+				}
+			}
+		}
 		p := t.ptrOf(x.X)
 		if p.Kind == "cell" || p.Kind == "obj" || p.Kind == "elemrow" {
 			t.nilCheck(p.Ref, "load through nil pointer")
@@ -1824,6 +1974,8 @@ func (t *FnTrans) isReturnSelfStore(x *ssa.Store) bool {
 	}
 	return call
 }
+
+func isConst(v ssa.Value) bool { _, ok := v.(*ssa.Const); return ok }
 
 // realReferrers counts the instructions using v, ignoring debug references.
 func realReferrers(v ssa.Value) int {
